@@ -164,7 +164,7 @@ impl<D: DictionaryAccess> DictBuilder<D> {
         bldr.lexicon
             .set_max_conn_sizes(cm.num_left() as _, cm.num_right() as _);
         bldr.lexicon
-            .set_num_system_words(system.lexicon().size() as usize);
+            .set_num_system_words(system.lexicon().num_system_words() as usize);
         bldr.prebuilt = Some(system);
         bldr
     }
